@@ -181,6 +181,13 @@ enum Mode {
 
 type State = BTreeMap<(usize, usize), Deps>;
 
+/// Marker inside a bit's dependency set: "on some path this block leaves the bit
+/// unwritten, so it keeps its live-on-entry value" (retained state).  Retention by
+/// itself is not a combinational edge (a latch, not a loop) in `G_precise`; it is
+/// one in `G_struct`.  A *later read* of such a bit in the same block does read the
+/// variable's own net, so the marker turns into the bit's node when it is read.
+const RETAIN: u32 = u32::MAX;
+
 struct Interp<'a> {
     d: &'a Design,
     m: &'a Module,
@@ -209,7 +216,14 @@ impl<'a> Interp<'a> {
                 let mut out = Vec::with_capacity(w);
                 for b in lo..lo + w {
                     if let Some(x) = st.get(&(r.var, b)) {
-                        out.push(x.clone());
+                        let mut x = x.clone();
+                        if x.remove(&RETAIN) {
+                            match ext(r.var, b) {
+                                Some(n) => x.extend(n),
+                                None => self.unsupported = Some("function local retained over a branch".into()),
+                            }
+                        }
+                        out.push(x);
                     } else {
                         match ext(r.var, b) {
                             Some(x) => out.push(x),
@@ -363,7 +377,7 @@ impl<'a> Interp<'a> {
                     self.block(vars, t, &mut a, &cd, ext);
                     let mut b = st.clone();
                     self.block(vars, f, &mut b, &cd, ext);
-                    self.merge(st, vec![a, b]);
+                    self.merge(st, vec![a, b], ext);
                 }
                 S::Case(sel, _, arms, default) => {
                     let mut cd = union_all(&self.eval(vars, sel, st, ext));
@@ -382,7 +396,7 @@ impl<'a> Interp<'a> {
                         }
                         None => states.push(st.clone()),
                     }
-                    self.merge(st, states);
+                    self.merge(st, states, ext);
                 }
             }
         }
@@ -392,7 +406,7 @@ impl<'a> Interp<'a> {
     /// branch that did not write the bit contributes its pre-branch value.  A
     /// bit with no pre-branch value that some branch leaves unwritten is a
     /// latch: the lab does not generate those (unsupported).
-    fn merge(&mut self, st: &mut State, branches: Vec<State>) {
+    fn merge(&mut self, st: &mut State, branches: Vec<State>, ext: &dyn Fn(usize, usize) -> Option<Deps>) {
         let mut keys: BTreeSet<(usize, usize)> = BTreeSet::new();
         for b in &branches {
             keys.extend(b.keys().copied());
@@ -403,7 +417,12 @@ impl<'a> Interp<'a> {
                 match b.get(&k) {
                     Some(x) => u.extend(x.iter().copied()),
                     None => {
-                        self.unsupported = Some("latch: bit written on some but not all paths".into());
+                        // no value before the branch and this branch does not write it: retained state
+                        if ext(k.0, k.1).is_some() {
+                            u.insert(RETAIN);
+                        } else {
+                            self.unsupported = Some("latch on a function local".into());
+                        }
                     }
                 }
             }
@@ -609,14 +628,10 @@ fn flatten(d: &Design, mi: usize, path: &str, top: bool, mode: Mode, col: Collap
             Item::Comb(stmts) => {
                 let lab = label(f, format!("{}:always_comb{}", m.name, item_feats(item)));
                 let mut it = Interp { d, m, mode, inplace: col.inplace, unsupported: None };
-                // bits this block writes anywhere: reading one of them before its
-                // first assignment is outside the lab (read-before-assign)
-                let mut written = BTreeSet::new();
-                collect_written(&d.structs, &m.vars, stmts, &mut written);
+                // a bit read before the block has assigned it on the current path reads the
+                // variable's own net (its live-on-entry value): a real combinational read
                 let ids2 = &ids;
-                let ext = |v: usize, b: usize| -> Option<Deps> {
-                    if written.contains(&(v, b)) { None } else { Some(std::iter::once(ids2[v][b]).collect()) }
-                };
+                let ext = |v: usize, b: usize| -> Option<Deps> { Some(std::iter::once(ids2[v][b]).collect()) };
                 let mut st = State::new();
                 it.block(&m.vars, stmts, &mut st, &Deps::new(), &ext);
                 if let Some(u) = it.unsupported {
@@ -624,7 +639,14 @@ fn flatten(d: &Design, mi: usize, path: &str, top: bool, mode: Mode, col: Collap
                 }
                 for ((v, b), dx) in st {
                     for s in dx {
-                        f.g.edge(s, ids[v][b], lab);
+                        if s == RETAIN {
+                            // retained state: an edge only in the structural envelope
+                            if mode == Mode::Struct {
+                                f.g.edge(ids[v][b], ids[v][b], lab);
+                            }
+                        } else {
+                            f.g.edge(s, ids[v][b], lab);
+                        }
                     }
                 }
             }
@@ -1090,11 +1112,133 @@ impl<'a> Gen<'a> {
         S::Assign(Ref { var: t, elem, field, sel }, self.expr(cx, w, 2, r, pool))
     }
 
+    /// `w` bits taken from variable `v` (zero-padded when `v` is narrower)
+    fn own_bits(&mut self, cx: &MCtx, v: usize, w: usize) -> E {
+        let vw = match cx.vars[v].ty {
+            Ty::Bits(x) => x,
+            _ => unreachable!(),
+        };
+        let whole = Ref { var: v, elem: None, field: None, sel: None };
+        if vw == w {
+            E::R(whole)
+        } else if vw > w {
+            let lo = self.rng.usize(vw - w + 1);
+            E::R(Ref { sel: Some((lo + w - 1, lo)), ..whole })
+        } else {
+            E::Cat(vec![E::K(w - vw, 0), E::R(whole)])
+        }
+    }
+
+    /// one branching statement in which `t` reads `src` (itself, or the partner variable) in one
+    /// branch and is only partly / conditionally assigned in the sibling branch
+    fn feedback_if(&mut self, cx: &MCtx, t: usize, w: usize, src: usize, r: usize, pool: &[usize]) -> S {
+        // pool without the block's own variables: the other operands come from outside
+        let whole = Ref { var: t, elem: None, field: None, sel: None };
+        let own = self.own_bits(cx, src, w);
+        let other = self.expr(cx, w, 1, r, pool);
+        let self_rhs = match self.rng.below(4) {
+            0 => E::Bit("&", Box::new(own), Box::new(other)),
+            1 => E::Bit("^", Box::new(other), Box::new(own)),
+            2 if w >= 2 => E::Ari("+", Box::new(own), Box::new(other)),
+            _ => {
+                let c = self.cond(cx, r, pool);
+                E::Mux(Box::new(c), Box::new(own), Box::new(other))
+            }
+        };
+        let self_branch = vec![S::Assign(whole.clone(), self_rhs)];
+        // sibling: nested if without else, or case without default, writing the whole variable or a part of it
+        let (sel, pw) = if w >= 2 && self.rng.chance(1, 3) {
+            let lo = self.rng.usize(w);
+            let hi = lo + self.rng.usize(w - lo);
+            self.feat("comb:feedback-sibling-writes-part");
+            (Some((hi, lo)), hi - lo + 1)
+        } else {
+            (None, w)
+        };
+        let inner_assign = S::Assign(Ref { sel, ..whole.clone() }, self.expr(cx, pw, 1, r, pool));
+        let sibling = if self.rng.chance(1, 3) {
+            self.feat("comb:feedback-sibling-case-without-default");
+            let sel_e = self.leaf_sig(cx, 2, r, pool);
+            let l = self.rng.below(4);
+            vec![S::Case(sel_e, 2, vec![(l, vec![inner_assign])], None)]
+        } else if self.rng.chance(1, 5) {
+            self.feat("comb:feedback-sibling-empty");
+            vec![]
+        } else {
+            self.feat("comb:feedback-sibling-nested-if");
+            let c2 = self.cond(cx, r, pool);
+            vec![S::If(c2, vec![inner_assign], vec![])]
+        };
+        let c1 = self.cond(cx, r, pool);
+        if self.rng.bool() {
+            self.feat("comb:feedback-self-read-in-first-branch");
+            S::If(c1, self_branch, sibling)
+        } else {
+            self.feat("comb:feedback-self-read-in-second-branch");
+            S::If(c1, sibling, self_branch)
+        }
+    }
+
+    fn feedback_shape(&mut self, cx: &MCtx, t: usize, w: usize, partner: Option<usize>, r: usize, pool: &[usize]) -> Vec<S> {
+        // operands other than the deliberate self / partner read come from outside the block
+        let mut cx3 = MCtx { vars: cx.vars.clone(), rank: cx.rank.clone(), funcs: cx.funcs.clone(), blocked: cx.blocked.clone() };
+        cx3.blocked.insert(t);
+        if let Some(p) = partner {
+            cx3.blocked.insert(p);
+        }
+        let save = self.p_any;
+        self.p_any = 0;
+        let mut out = vec![];
+        let with_default = self.rng.bool();
+        self.feat("comb:feedback-shape");
+        self.feat(if with_default { "comb:feedback-with-prior-default" } else { "comb:feedback-without-default" });
+        let mut targets = vec![t];
+        targets.extend(partner);
+        if with_default {
+            for &v in &targets {
+                let vw = ty_width(&self.structs, &cx.vars[v].ty);
+                out.push(S::Assign(Ref { var: v, elem: None, field: None, sel: None }, self.expr(&cx3, vw, 1, r, pool)));
+            }
+        }
+        match partner {
+            None => out.push(self.feedback_if(&cx3, t, w, t, r, pool)),
+            Some(p) => {
+                self.feat("comb:feedback-cross-variable");
+                let pw = ty_width(&self.structs, &cx.vars[p].ty);
+                out.push(self.feedback_if(&cx3, t, w, p, r, pool));
+                out.push(self.feedback_if(&cx3, p, pw, t, r, pool));
+            }
+        }
+        self.p_any = save;
+        out
+    }
+
     fn comb_block(&mut self, cx: &MCtx, targets: &[usize], r: usize, pool: &[usize]) -> Vec<S> {
         let mut out = vec![];
         // defaults first: every unit of every target, reading only lower ranks or earlier targets
         let mut cx2 = MCtx { vars: cx.vars.clone(), rank: cx.rank.clone(), funcs: cx.funcs.clone(), blocked: targets.iter().copied().collect() };
+        let mut done: BTreeSet<usize> = BTreeSet::new();
         for (k, &t) in targets.iter().enumerate() {
+            if done.contains(&t) {
+                continue;
+            }
+            // conditional self-reference / retained-state shapes (plain Bits targets only)
+            if let Ty::Bits(w) = cx.vars[t].ty
+                && self.rng.chance(3, 10)
+            {
+                // cross-variable partner: another plain target of this block that has no statements yet
+                let partner = targets[k + 1..].iter().copied().find(|p| matches!(cx.vars[*p].ty, Ty::Bits(_)) && !done.contains(p)).filter(|_| self.rng.chance(1, 2));
+                out.extend(self.feedback_shape(&cx2, t, w, partner, r, pool));
+                cx2.rank[t] = 0;
+                cx2.blocked.remove(&t);
+                done.insert(t);
+                if let Some(p) = partner {
+                    cx2.rank[p] = 0;
+                    cx2.blocked.remove(&p);
+                    done.insert(p);
+                }
+                continue;
+            }
             for (elem, field, uw) in self.units(&cx.vars[t]) {
                 let e = self.expr(&cx2, uw, 2, r, pool);
                 out.push(S::Assign(Ref { var: t, elem, field, sel: None }, e));
@@ -1762,6 +1906,15 @@ fn judge(run: &Run, hist: &Hist, i: u64, seed: u64, o: &CaseOut) {
         hist.add(&format!("{f}|{class}"));
         hist.add(f);
     }
+    if o.feats.iter().any(|f| f == "comb:feedback-shape") {
+        run.count("feedback_shape_designs", 1);
+        run.count(&format!("feedback_shape_{class}"), 1);
+        for f in ["comb:feedback-without-default", "comb:feedback-with-prior-default", "comb:feedback-cross-variable", "comb:feedback-self-read-in-first-branch", "comb:feedback-self-read-in-second-branch"] {
+            if o.feats.iter().any(|x| x == f) {
+                run.count(&format!("feedback_shape:{}|{class}", &f[14..]), 1);
+            }
+        }
+    }
     if reported {
         run.count("analyzer_reported", 1);
     } else {
@@ -1955,6 +2108,9 @@ pub fn main(args: Args) {
         ("expected_report", scale(50)),
         ("expected_clean", scale(150)),
         ("agreements", scale(250)),
+        ("feedback_shape_designs", scale(120)),
+        ("feedback_shape_expected_report", scale(40)),
+        ("feedback_shape_expected_clean", scale(30)),
         ("sim_backup_settled", if want_sim { scale(150) } else { 0 }),
     ]);
 }
